@@ -336,6 +336,13 @@ class DFlags(Plugin):
                 return True
         return False
 
+    @staticmethod
+    def _fmt_key(args):
+        """identity of the format argument of a v/swprintf call (the SSA pointer value), or None"""
+        if len(args) > 2 and args[2][0] == "p":
+            return "%s+%s" % (args[2][1], args[2][2])
+        return None
+
     def write(s, pl, p, n, zero, eng, facts, inst=None):
         r = s._write(pl[:7], p, n, zero, eng, facts)
         slack = pl[8]
@@ -489,6 +496,14 @@ class DFlags(Plugin):
             name, eff, args = call[1], call[2], call[3]
             if name in ("strlen", "wcslen", "strnlen", "wcsnlen") and args and s.is_dest(args[0]) and args[0][2].is_const() and args[0][2].c == 0 and call[6]:
                 return [(pl[:6] + (Lin.atom(call[6]),) + pl[7:], [])]
+            if name in ("vswprintf", "swprintf") and args and not s.is_dest(args[0]):
+                # a probe into a scratch buffer after the same format failed on dest for lack of room: the formatter is a function of its
+                # format and arguments, so the probe either fails as well or needs at least the capacity that was not enough
+                fk = s._fmt_key(args)
+                if fk is not None and eng.decide(("cmp", "sge", Lin.atom("wfmtfail:" + fk), Lin.const(1)), facts) is True:
+                    capa = Lin.atom("wfmtcap:" + fk)
+                    return [(pl, [(lambda r: ("cmp", "slt", r[1], Lin.const(0)) if r[0] == "i" else ("o", "?"), True)]),
+                            (pl, [(lambda r, capa=capa: ("cmp", "sge", r[1], capa) if r[0] == "i" else ("o", "?"), True)])]
             for (pa, ln) in eff.get("w", ()):
                 if pa < len(args) and s.is_dest(args[pa]):
                     n = None
@@ -508,7 +523,14 @@ class DFlags(Plugin):
                         # C11 7.29.2.3/7: a negative value is returned when n or more wide characters were requested -- nothing is promised
                         # about the array then (glibc leaves it without a terminator); only a non-negative result means a terminated string
                         done = pl[:3] + (True,) + pl[4:]
-                        return [(done, [(lambda r: conv_success_term("neg", r), True)]), (pl, [(lambda r: conv_success_term("neg", r), False)])]
+                        failed = [(lambda r: conv_success_term("neg", r), False)]
+                        cap = eng.as_lin(args[1]) if len(args) > 1 else None
+                        fk = s._fmt_key(args)
+                        if cap is not None and fk is not None:
+                            s.pinned.update(("wfmtfail:" + fk, "wfmtcap:" + fk))
+                            # remembered for a later probe call with the same format (see below)
+                            failed += [(("cmp", "sge", Lin.atom("wfmtfail:" + fk), Lin.const(1)), True), (("cmp", "eq", Lin.atom("wfmtcap:" + fk), cap), True)]
+                        return [(done, [(lambda r: conv_success_term("neg", r), True)]), (pl, failed)]
                     if name in ("fgets", "asctime_r", "ctime_r"):
                         # these return NULL when they fail (end of file without data, read error, unrepresentable time): the array is then
                         # unchanged or indeterminate (C11 7.21.7.2/3) -- only a non-null result means a terminated string
